@@ -60,7 +60,15 @@ def _(c):
                             z3.And(s.e1.size == s.e2.size,
                                    all_common_agree(s, ks, z3.Length(ks), s.e1.checksums, s.e2.checksums))))
         return ok == full
-    c.ensures('compatible-iff', verdict)
+    c.ensures('compatible-iff', verdict, internal=True)
+
+    def summary(s):
+        t1, t2 = s.e1.tag, s.e2.tag
+        ok, diff = s.result
+        both_ign = z3.And(t1 == STR('IGNORE'), t2 == STR('IGNORE'))
+        return z3.And(z3.Implies(ok, z3.And(tags_compatible(t1, t2), z3.Or(both_ign, s.e1.size == s.e2.size))),
+                      z3.Implies(z3.And(tags_compatible(t1, t2), both_ign), ok))
+    c.ensures('compatible-implies-same-kind-and-size', summary)
 
     def coverage(s):
         if not s.has_ghost('seq1'):
@@ -69,7 +77,7 @@ def _(c):
         c1, c2 = s.e1.checksums, s.e2.checksums
         return z3.ForAll([h], z3.Implies(z3.And(z3.Not(OptStr.is_none(c1[h])), z3.Not(OptStr.is_none(c2[h]))),
                                          z3.Contains(s.seq1, z3.Unit(h))))
-    c.ensures('every-common-hash-compared', coverage)
+    c.ensures('every-common-hash-compared', coverage, internal=True)
 
     def diffclause(s):
         ok, diff = s.result
@@ -239,6 +247,13 @@ def file_facts(p):
                 dev=FS.fs_dev(p), FE=FS.fs_fopen_err(p), RE=FS.fs_read_err(p))
 
 
+def sorted_keys(cks):
+    """the term the engine builds for sorted(d) of a dict d (A-dictkeys: exactly the keys)"""
+    from vp.lib import sort_tag
+    f = z3.Function('py_keys_sorted_' + sort_tag(cks.sort()), cks.sort(), z3.SeqSort(z3.StringSort()))
+    return f(cks)
+
+
 OptReal = opt_sort(z3.RealSort())
 OptInt = opt_sort(z3.IntSort())
 
@@ -271,22 +286,21 @@ def _(c):
                      all_digests_match(s, s.seq, s.i, s.e.val.checksums, FS.fs_data(s.path)))))])
 
     def verdict(s):
+        """one formula for every path and for the call sites (keys in the canonical order sorted() gives)"""
         f = file_facts(s.path)
         ok, diff = s.result
         lm = opt_term(s.last_mtime, OptReal)
         enone = s.e.is_none
         ev = s.e.val
         ign = ev.tag == STR('IGNORE')
-        if not s.has_ghost('seq1'):
-            # returned before the digest loop: ignore / existence / type / size / mtime-skip decisions
-            skip = z3.And(f['size'] != 0, f['size'] == ev.size, z3.Not(OptReal.is_none(lm)),
-                          f['mtime'] <= OptReal.val(lm))
-            return ok == z3.If(enone, f['absent'],
-                               z3.Or(ign, z3.And(f['present'], f['SE'] == 0, f['reg'], skip)))
-        ks = s.seq1
+        cks = s.old.e.val.checksums
+        ks = sorted_keys(cks)
+        skip = z3.And(f['size'] != 0, f['size'] == ev.size, z3.Not(OptReal.is_none(lm)),
+                      f['mtime'] <= OptReal.val(lm))
         full = z3.And(z3.Or(f['size'] == 0, f['size'] == ev.size), z3.Length(f['data']) == ev.size,
-                      all_digests_match(s, ks, z3.Length(ks), ev.checksums, f['data']))
-        return z3.And(z3.Not(enone), ok == z3.And(f['present'], f['SE'] == 0, f['reg'], full))
+                      all_digests_match(s, ks, z3.Length(ks), cks, f['data']))
+        return ok == z3.If(enone, f['absent'],
+                           z3.Or(ign, z3.And(f['present'], f['SE'] == 0, f['reg'], z3.Or(skip, full))))
     c.ensures('verdict-exact', verdict)
 
     def no_fault_on_return(s):
